@@ -56,31 +56,38 @@ func linkGrid(rng *rand.Rand, full bool) []attrCase {
 		pool = append(pool, [2]string{"target", t})
 	}
 	pool = append(pool, [2]string{"id", "x"})
-	for opts := 0; opts < 32; opts++ {
-		ops := []Op{{Kind: "attrs", Names: []string{"href", "rel", "target", "id"}, Scope: "E", ScopeEls: []string{"a", "area", "link", "base", "b"}},
-			{Kind: "schemes", Names: []string{"http", "https", "mailto"}}, {Kind: "relative", B: true}}
-		names := []string{"nofollow", "nofollowfq", "noreferrer", "noreferrerfq", "targetblank"}
-		for i, n := range names {
-			if opts&(1<<i) != 0 {
-				ops = append(ops, Op{Kind: n, B: true})
+	// which of the two attributes the sanitiser forces are also allowed by the policy: both, rel only, target only, neither
+	allowed := [][]string{{"href", "rel", "target", "id"}, {"href", "rel", "id"}, {"href", "target", "id"}, {"href", "id"}}
+	for variant, names0 := range allowed {
+		for opts := 0; opts < 32; opts++ {
+			ops := []Op{{Kind: "attrs", Names: names0, Scope: "E", ScopeEls: []string{"a", "area", "link", "base", "b"}},
+				{Kind: "schemes", Names: []string{"http", "https", "mailto"}}, {Kind: "relative", B: true}}
+			names := []string{"nofollow", "nofollowfq", "noreferrer", "noreferrerfq", "targetblank"}
+			for i, n := range names {
+				if opts&(1<<i) != 0 {
+					ops = append(ops, Op{Kind: n, B: true})
+				}
 			}
-		}
-		if opts%7 == 3 {
-			ops = append(ops, Op{Kind: "parseable", B: false})
-		}
-		ps := &PolicySpec{Name: fmt.Sprintf("link-%02d", opts), Ops: ops}
-		n := 60
-		if full {
-			n = 400
-		}
-		for i := 0; i < n; i++ {
-			k := 1 + rng.Intn(4)
-			var as []html.Attribute
-			for j := 0; j < k; j++ {
-				kv := pool[rng.Intn(len(pool))]
-				as = append(as, html.Attribute{Key: kv[0], Val: kv[1]})
+			if opts%7 == 3 {
+				ops = append(ops, Op{Kind: "parseable", B: false})
 			}
-			cases = append(cases, attrCase{ps, pick(rng, []string{"a", "a", "a", "area", "link", "base", "b"}), as})
+			ps := &PolicySpec{Name: fmt.Sprintf("link-%02d-v%d", opts, variant), Ops: ops}
+			n := 60
+			if variant > 0 {
+				n = 15
+			}
+			if full {
+				n = 400
+			}
+			for i := 0; i < n; i++ {
+				k := 1 + rng.Intn(4)
+				var as []html.Attribute
+				for j := 0; j < k; j++ {
+					kv := pool[rng.Intn(len(pool))]
+					as = append(as, html.Attribute{Key: kv[0], Val: kv[1]})
+				}
+				cases = append(cases, attrCase{ps, pick(rng, []string{"a", "a", "a", "area", "link", "base", "b"}), as})
+			}
 		}
 	}
 	return cases
